@@ -140,6 +140,47 @@ impl Shape {
     }
 }
 
+/// Drive an iterator through its adaptor entry points and compare with the plain forward walk.
+/// Returns a description of the first deviation ("nth(3) ...").
+pub fn iter_protocol<I: Iterator, T: PartialEq + std::fmt::Debug>(mk: &dyn Fn() -> I, f: &dyn Fn(I::Item) -> T, want: &[T]) -> Option<String> {
+    let n = want.len();
+    let brief = |t: &Option<T>| format!("{:?}", t).chars().take(120).collect::<String>();
+    if mk().count() != n {
+        return Some(format!("count() = {} for {} items", mk().count(), n));
+    }
+    let (lo, hi) = mk().size_hint();
+    if lo > n || hi.map(|h| h < n).unwrap_or(false) {
+        return Some(format!("size_hint() = ({}, {:?}) for {} items", lo, hi, n));
+    }
+    let last = mk().last().map(f);
+    if last.as_ref() != want.last() {
+        return Some(format!("last() = {} differs from the last item of the forward walk", brief(&last)));
+    }
+    let ks: Vec<usize> = if n <= 12 { (0..=n + 1).collect() } else { vec![0, 1, 2, 3, n / 2, n - 2, n - 1, n, n + 1] };
+    for k in ks {
+        let got = mk().nth(k).map(f);
+        if got.as_ref() != want.get(k) {
+            return Some(format!("nth({}) = {} but the forward walk has {:?} there", k, brief(&got), want.get(k).map(|w| format!("{:?}", w).chars().take(120).collect::<String>())));
+        }
+        // ... and the iterator carries on correctly after the jump
+        let mut it = mk();
+        let _ = it.nth(k);
+        let rest: Vec<T> = it.map(f).collect();
+        let want_rest: &[T] = if k + 1 <= n { &want[k + 1..] } else { &[] };
+        if rest[..] != want_rest[..] {
+            return Some(format!("nth({}) then next()...: {} items follow instead of the {} of the forward walk (or they differ)", k, rest.len(), want_rest.len()));
+        }
+    }
+    for (a, b) in [(1usize, 1usize), (2, 1), (0, 2), (1, 2), (3, 3)] {
+        let got: Vec<T> = mk().skip(a).step_by(b).map(f).collect();
+        let exp: Vec<&T> = want.iter().skip(a).step_by(b).collect();
+        if got.len() != exp.len() || got.iter().zip(exp.iter()).any(|(g, e)| g != *e) {
+            return Some(format!("skip({}).step_by({}) yields {} items that differ from the forward walk's {}", a, b, got.len(), exp.len()));
+        }
+    }
+    None
+}
+
 struct Ident;
 impl Translator<Dk> for Ident {
     type TargetPk = Dk;
@@ -324,6 +365,32 @@ fn check_tree(rep: &mut Report, case: u64, world: &World, shape: &Shape, ik: usi
     match translated {
         Some((ts, tspk)) if ts == shown && tspk == spk => {}
         other => rep.violation(case, format!("C15:translate:{}", how), format!("identity key translation gives {:?}: {}", other.map(|x| x.0.chars().take(200).collect::<String>()), brief())),
+    }
+    // iterator protocol: every way of driving the leaf iterators (nth, skip, step_by, last, count)
+    // has to yield the items the plain forward walk yields (that walk is judged above)
+    {
+        let r = guarded(std::panic::AssertUnwindSafe(|| {
+            let info = tr.spend_info();
+            let item = |l: miniscript::descriptor::TrSpendInfoIterItem<'_, Dk>| (l.depth(), l.script().to_bytes(), l.control_block().serialize());
+            let fwd: Vec<_> = info.leaves().map(item).collect();
+            let a = iter_protocol(&|| info.leaves(), &item, &fwd);
+            let item2 = |l: miniscript::descriptor::TapTreeIterItem<'_, Dk>| (l.depth(), l.compute_script().to_bytes());
+            let fwd2: Vec<_> = tr.leaves().map(item2).collect();
+            let b = iter_protocol(&|| tr.leaves(), &item2, &fwd2);
+            (a, b)
+        }));
+        match r {
+            Ok((a, b)) => {
+                rep.count("iterator-protocol-checked");
+                if let Some(m) = a {
+                    rep.violation(case, format!("C15:spend-info-iterator:{}", m.split(' ').next().unwrap_or("")), format!("spend_info().leaves(): {}; {}", m, brief()));
+                }
+                if let Some(m) = b {
+                    rep.violation(case, format!("C15:taptree-iterator:{}", m.split(' ').next().unwrap_or("")), format!("Tr::leaves(): {}; {}", m, brief()));
+                }
+            }
+            Err(m) => rep.violation(case, format!("C15:panic:leaf-iterators:{}", norm_loc(&last_panic_loc())), format!("driving the leaf iterators panicked ({}): {}", m, brief())),
+        }
     }
     // the same tree built through the TapTree::leaf / combine API
     // the leaf iterators are double ended: from the back they must give the same leaves
